@@ -195,7 +195,56 @@ fn directed_shape(src: &mut Src, family: Family) -> Prog {
         nodes.push(ir);
         nodes.len() - 1
     };
-    match src.below(8) {
+    match src.below(11) {
+        8 => {
+            // a product whose two halves are the same variable (pair x x : A -> V * V) meets a
+            // complete product type with equal or unequal halves (a jet's source, or words)
+            let jets: Vec<JetRef> = small_jets(family).into_iter().filter(|j| matches!(j.source().kind, crate::model::layout::RTyKind::Prod(..))).collect();
+            let x = push([Ir::Iden, Ir::Witness, Ir::Unit, Ir::Word(1, vec![false; 2])][src.below(4)].clone());
+            let p = push(Ir::Pair(x, x));
+            let consumer = if !jets.is_empty() {
+                push(Ir::Jet(jets[src.below(jets.len())]))
+            } else {
+                let i = push(Ir::Iden);
+                push(Ir::Take(i))
+            };
+            push(Ir::Comp(p, consumer));
+        }
+        9 => {
+            // a consumer whose source is V * V (pair (take x) (drop x) with one shared x) fed by a
+            // complete product with equal or unequal halves
+            let x = push([Ir::Iden, Ir::Unit, Ir::Witness][src.below(3)].clone());
+            let t = push(Ir::Take(x));
+            let d = push(Ir::Drop(x));
+            let q = push(Ir::Pair(t, d));
+            let ka = src.below(5);
+            let kb = if src.bool() { ka } else { src.below(5) };
+            let wa = push(Ir::Word(ka, vec![false; 1 << ka]));
+            let wb = push(Ir::Word(kb, vec![true; 1 << kb]));
+            let prod = push(Ir::Pair(wa, wb));
+            push(Ir::Comp(prod, q));
+        }
+        10 => {
+            // a sum whose two arms are the same variable (case x x : (A + A) * C -> D) fed by a
+            // complete sum (a jet's target, injl/injr of words on both paths is not expressible,
+            // so jets with a sum target are used) paired with unit
+            let jets: Vec<JetRef> = small_jets(family).into_iter().filter(|j| matches!(j.target().kind, crate::model::layout::RTyKind::Sum(..))).collect();
+            let x = push([Ir::Unit, Ir::Witness][src.below(2)].clone());
+            let x = if src.bool() { x } else { let i = push(Ir::Iden); push(Ir::Take(i)) };
+            let c = push(Ir::Case(x, x));
+            if jets.is_empty() {
+                push(Ir::Comp(c, x));
+            } else {
+                let j = jets[src.below(jets.len())];
+                let jn = push(Ir::Jet(j));
+                // feed the jet from a witness (free source), pair its result with unit
+                let w = push(Ir::Witness);
+                let call = push(Ir::Comp(w, jn));
+                let u = push(Ir::Unit);
+                let pr = push(Ir::Pair(call, u));
+                push(Ir::Comp(pr, c));
+            }
+        }
         7 => {
             // a huge *complete* type (word doubled d times) meeting a mismatch
             // (rare and usually small: each hit of the known display finding costs a full fuel budget)
